@@ -533,6 +533,41 @@ def matrix_cases(prefix, kinds, rng=None, two_path=True, c01_domain=False, root_
     return cases
 
 
+def marker_collision_cases(prefix, kinds=("ovl_mm", "ovl_sub", "ovl_pp")):
+    """names that end in the overlay's marker suffix: the marker FILE of /a and the marker DIRECTORY of the children
+    of /a_wo are the same path of the write layer (finding D28)"""
+    rng = random.Random(5)
+    cases = []
+    for kind in kinds:
+        for variant in ("hides", "createdir", "listing"):
+            c = vfx.Case("%s_wocollide_%s_%s" % (prefix, kind, variant))
+            g = build_config(c, kind, rng)
+            c.cfg = g
+            t = g.target
+            lo, sub = g.prepop[0]
+            base = sub[1:] + "/" if sub else ""
+            if variant != "createdir":
+                c.op("createdir", vfx.ps(lo, base + "a"))
+            c.op("createdirall", vfx.ps(lo, base + "a_wo"))
+            write_file(c, lo, base + "a_wo/x", b"x")
+            write_file(c, lo, base + "a_wo/y", b"y")
+            c.op("snap", t)
+            c.first_snap = c.nops - 1
+            c.op("removefile", vfx.ps(t, "a_wo/x"))
+            if variant == "hides":
+                c.op("exists", vfx.ps(t, "a"))
+                c.op("metadata", vfx.ps(t, "a"))
+            elif variant == "createdir":
+                c.op("createdir", vfx.ps(t, "a"))
+            else:
+                c.op("readdir", "%d:" % t)
+            c.op("snap", t)
+            for w in g.watch:
+                c.op("snap", w)
+            cases.append(c)
+    return cases
+
+
 def reader_seek_cases(prefix, kinds, rng=None):
     """read handles driven to and over the edges: relative seeks before the start, to and past the end, reads there"""
     rng = rng or random.Random(13)
